@@ -753,6 +753,15 @@ func packagePrepareWalkFn(root string, ignoreRules *ignorefiles.Ruleset, exclude
 			return fmt.Errorf("module package path %q is symlink traversing out of the package root", relPath)
 		}
 
+		// A symlink with an absolute target can only name the temporary
+		// directory the package was fetched into, so it would dangle as soon
+		// as the package is moved to its final place in the bundle.
+		if info.Mode()&os.ModeSymlink != 0 {
+			if target, err := os.Readlink(absPath); err == nil && filepath.IsAbs(target) {
+				return fmt.Errorf("module package path %q is a symlink with an absolute target", relPath)
+			}
+		}
+
 		// The real referent must also be either a regular file or a directory.
 		// (Not, for example, a Unix device node or socket or other such oddities.)
 		lInfo, err := os.Lstat(realPath)
